@@ -87,6 +87,26 @@ let handle (payload : string) : string =
       let before = !st in
       st := step !st OSave; cls (if ios k = 0 then "sync" else "sync-spurious");
       emit ("s" ^ n ^ "=" ^ dump !st.mem ^ save_keys n before !st)
+    | ["B"; k; items] ->
+      (* burst of saves while the saver is held in a system call of the first one: whatever the
+         interleaving, after Synchronize() each file holds its most recent save (c18_sync) *)
+      cls (if ios k <= 1 then "burst-held-at-open" else "burst-held-later");
+      let mem2 = ref [] and saved2 = ref false and atomic = ref true in
+      List.iter (fun it ->
+        match String.split_on_char ',' it with
+        | [w; k'; v] ->
+          let k' = bytes_of_hex k' and v = bytes_of_hex v in
+          if w = "2" then begin cls "burst-two-files"; mem2 := set_value k' v !mem2; saved2 := true end
+          else begin
+            st := step !st (OSet (k', v));
+            let before = !st in
+            let imgs = images_from (save_script before.mem) before.disk in
+            if not (crash_atomic_chk (restart before.disk) before.mem imgs) then atomic := false;
+            st := step !st OSave
+          end
+        | _ -> failwith "bad burst item") (String.split_on_char '/' items);
+      emit (Printf.sprintf "s%s=%s;y%s=%s;z%s=%s;a%s=%s" n (dump !st.mem) n (file_s !st.disk.f_conf)
+              n (if !saved2 then hx (save_bytes !mem2) else "!") n (bool01 !atomic))
     | ["W"; k] ->
       let k = ios k in
       let script = save_script_enospc !st.mem (nat_of_int k) in
